@@ -169,7 +169,7 @@ class Neo4jPropertyGraph(ABCPropertyGraph):
         assert prop_name is not None
         _, node_props = self.get_node_properties(node_id=node_id)
         prop_str = node_props.get(prop_name, None)
-        if prop_str is None or prop_str == self.NEO4j_NONE:
+        if prop_str is None or prop_str == self.NEO4j_NONE or prop_str == '':
             return None
         try:
             prop_val = json.loads(prop_str)
